@@ -500,6 +500,13 @@ func ruleC19Clone(c *Ctx) {
 			needs = append(needs, okOf(fn, R, s.name, s.subs...))
 		}
 		c.Guard(rule, fn, successReturns(fn), "return success", nil, needs...)
+		// every attempt of the copy enters the rebuilding state itself: a second attempt (after the
+		// pause that follows a failed copy) finds the replica rebuilding already, is refused and the
+		// clone ends in status "error" - it never copies again with the source, the chain and the
+		// "snapshot found" flag the first attempt looked up
+		perAttempt := okOf(fn, R, fRC+"SetRebuilding", ",true)")
+		perAttempt.Kill = func(in ssa.Instruction) bool { return isPlainCall(in) && CalleeName(in) == "time.Sleep" }
+		c.Guard(rule, fn, callsMatching(fn, R, fTask+"syncFiles"), "copy (per attempt)", nil, perAttempt)
 		// snapshot must be found
 		snap := `(("volume-snap-" + $5) + ".img")`
 		c.Guard(rule, fn, CallsTo(fn, fTask+"syncFiles"), "copy", nil, Need{Desc: "snapshot S found in the source chain (snapFound)", Edge: func(b *ssa.BasicBlock, k int) bool {
